@@ -174,7 +174,7 @@ def _candidates(x):
                 yield float(int(x))
     elif isinstance(x, str):
         n = len(x)
-        if n:
+        if n > 8:       # short strings are usually tags/modes: left alone
             step = n // 2
             while step >= 1:
                 for i in range(0, n, step):
@@ -182,9 +182,6 @@ def _candidates(x):
                 if step == 1:
                     break
                 step //= 2
-            for i, ch in enumerate(x):
-                if ch not in 'a0':
-                    yield x[:i] + 'a' + x[i + 1:]
 
 
 def shrink(sub, case, kind, max_evals=400, max_seconds=60.0):
